@@ -51,10 +51,20 @@ fn run_io_once(case: &Case, dir: &Path, fault: Fault) -> IoRun {
     let mut write_failure: Option<(usize, State, usize)> = None;
     let mut background_failure = false;
     let transient_short = matches!(fault, Fault::Io { kind: IoKind::Short(_), persistent: false, .. });
+    // programs of the "recovered" classes start with a write and a reopen: faults are armed only
+    // afterwards (fail-stop is a statement about ONE database instance)
+    let arm_from = case.program.iter().position(|o| matches!(o, Op::Reopen)).map_or(0, |p| p + 1);
     if let Err(v) = ex.open() {
         violation = Some(v);
     } else {
         for (i, op) in case.program.iter().enumerate() {
+            if i < arm_from {
+                if let Err(v) = ex.step(i, op) {
+                    violation = Some(v);
+                    break;
+                }
+                continue;
+            }
             let fired_before = mon.lock().unwrap().io.fired_at_call.is_some();
             mon.lock().unwrap().enabled = true;
             let r = ex.step(i, op);
